@@ -93,8 +93,18 @@ func aggregate(prop, tier string, seed uint64, results []*RunResult, wall time.D
 		c.Profiles[r.Profile]++
 		c.TxOK += r.TxOK
 		c.TxFail += r.TxFail
-		if r.FaultFree {
+		if r.FaultFree && r.Enumerated == "" {
 			c.FaultFreeRuns++
+		}
+		if r.Enumerated != "" {
+			if c.Enumerated == nil {
+				c.Enumerated = map[string]int{}
+			}
+			c.Enumerated["variants"]++
+			parts := strings.SplitN(r.Enumerated, "/", 3)
+			if len(parts) >= 2 {
+				c.Enumerated["kind:"+parts[1]]++
+			}
 		}
 		for k, v := range r.Faults {
 			c.FaultsFired[k] += v
@@ -152,10 +162,18 @@ func aggregate(prop, tier string, seed uint64, results []*RunResult, wall time.D
 	if len(c.Samples) == 0 {
 		c.Samples = []string{"(no run completed)"}
 	}
+	if c.Enumerated != nil {
+		c.Enumerated["base_histories"] = enumBases(tier)
+		c.Exhaustive = false
+		c.Rule += "; the systematic part re-plays " + fmt.Sprint(enumBases(tier)) + " fault-free 6-height base histories once per single-fault variant (C09: every engine call kind of every phase on every node at every block x every fault kind; C06/C07: every crash point incl. torn commits 1..8, every abandoned-round kind), followed by seeded search for the rest of the budget"
+	}
 	return ev
 }
 
 func levelOf(prop string) string {
+	if prop == "C09" {
+		return "fault_enumeration"
+	}
 	return "exploration"
 }
 
